@@ -311,7 +311,9 @@ func GetPduSessionReleaseRequest(pduSessionId uint8) []byte {
 		nasMessage.Epd5GSSessionManagementMessage)
 	pduSessionReleaseRequest.SetMessageType(nas.MsgTypePDUSessionReleaseRequest)
 	pduSessionReleaseRequest.PDUSessionID.SetPDUSessionID(pduSessionId)
-	pduSessionReleaseRequest.PTI.SetPTI(0x00)
+	// 0 is "no procedure transaction identity assigned" (TS 24.007 11.2.3.1a): a UE-requested
+	// transaction carrying it is answered with 5GSM STATUS #81 (TS 24.501 7.3.1)
+	pduSessionReleaseRequest.PTI.SetPTI(0x01)
 
 	m.GsmMessage.PDUSessionReleaseRequest = pduSessionReleaseRequest
 
@@ -335,7 +337,8 @@ func GetPduSessionReleaseComplete(pduSessionId uint8) []byte {
 		nasMessage.Epd5GSSessionManagementMessage)
 	pduSessionReleaseComplete.SetMessageType(nas.MsgTypePDUSessionReleaseComplete)
 	pduSessionReleaseComplete.PDUSessionID.SetPDUSessionID(pduSessionId)
-	pduSessionReleaseComplete.PTI.SetPTI(0x00)
+	// the PTI of the release command, which echoes the one of the release request
+	pduSessionReleaseComplete.PTI.SetPTI(0x01)
 
 	m.GsmMessage.PDUSessionReleaseComplete = pduSessionReleaseComplete
 
